@@ -2153,6 +2153,14 @@ class Canon:
                 continue
             cname, x = s_.value.func.id, s_.targets[0].id
             c = module.classes.get(cname)
+            if c is None and cname in module.imports:
+                # a private helper class kept in a sibling module and imported: the same, its methods respelled in this module's names
+                try:
+                    from .model import Class as _Cls
+                    r_ = module.resolve(s_.value.func)
+                    c = r_ if isinstance(r_, _Cls) else None
+                except Exception:
+                    c = None
             if c is None or not cname.startswith("_") or f"class:{cname}" in known or c.is_dataclass \
                     or [b_ for b_ in c.node.bases if u(b_) != "object" and u(b_).split("[")[0].split(".")[-1] != "Generic"] \
                     or c.node.keywords or any(n_.startswith("__") and n_ not in ("__init__",) for n_ in c.methods) \
@@ -2229,6 +2237,8 @@ class Canon:
                         return ast.copy_location(ast.Assign(targets=[node.target], value=node.value), node)
                     return node
             m2.body = [F().visit(A().visit(b_)) for b_ in m2.body]
+            if c.module is not module:
+                m2.body = self._respell(m2.body, c.module, module)
             ast.fix_missing_locations(m2)
             self._keepalive.append(m2)
             return m2
@@ -2238,7 +2248,7 @@ class Canon:
                 table[(x, mn)] = rewritten(x, c, m_)
 
         def prep(body):
-            return lift_walrus(lift_ifexp(body))
+            return lift_walrus(lift_ifexp(lower_matches(body, self._match_args(module))))
 
         def look2(call):
             f = call.func
